@@ -2,7 +2,7 @@
    on the cases the harness ran on the real code over FakeObjectIO, and decides agreement and
    the property instance inside Coq. *)
 From Coq Require Import List ZArith NArith Bool String Ascii.
-From IB Require Import Util.J IO.Regex IO.CloudGlob.
+From IB Require Import Util.J IO.Regex IO.CloudGlob IO.CloudStore.
 Import ListNotations.
 Open Scope Z_scope.
 
@@ -32,13 +32,29 @@ Fixpoint utf8_dec (bs : list Z) : option (list N) :=
         end
   end.
 
-(* a string: JSON string (plain or as UTF-8 bytes) or an array of code points *)
-Definition jstr (j : J) : option (list N) :=
+(* a string: JSON string (plain or as UTF-8 bytes), an array of code points, or an array of
+   [string, count] pairs = the concatenation of the repeated pieces (long keys and patterns) *)
+Definition jstr_simple (j : J) : option (list N) :=
   match j with
   | JS s => Some (map Z.to_N (string_bytes s))
   | JY b => utf8_dec b
   | JL l => match omap jint l with Some zs => Some (map Z.to_N zs) | None => None end
   | _ => None
+  end.
+Fixpoint rep_app (u : list N) (n : nat) : list N :=
+  match n with O => [] | S n' => u ++ rep_app u n' end.
+Definition jpiece (j : J) : option (list N) :=
+  match j with
+  | JL [s; JI c] => match jstr_simple s with
+                    | Some u => Some (rep_app u (Z.to_nat c))
+                    | None => None
+                    end
+  | _ => None
+  end.
+Definition jstr (j : J) : option (list N) :=
+  match j with
+  | JL ((JL _ :: _) as l) => match omap jpiece l with Some ps => Some (List.concat ps) | None => None end
+  | _ => jstr_simple j
   end.
 Definition jstrs (j : J) : option (list (list N)) :=
   match j with JL l => omap jstr l | _ => None end.
@@ -261,6 +277,497 @@ Definition check_expand (bucket : option (list (list N))) (keys : list (list N))
               match s with Some sn => prop_prefix keys p sn | None => true end in
   ok_verdict agree prop.
 
+
+(* ================================================================================== *)
+(* call sequences on one store with several buckets (kind ops)                        *)
+(* ================================================================================== *)
+(* a text as its UTF-8 BYTES *)
+Definition jutf8 (j : J) : option (list N) :=
+  match j with
+  | JS s => Some (map Z.to_N (string_bytes s))
+  | JY b => Some (map Z.to_N b)
+  | _ => None
+  end.
+
+Inductive ditem :=
+| DIRec (pre : list N) (r : J) (post : list N) (eol : Z)
+| DIWs (t : list N) (eol : Z)
+| DIJunk (t : list N) (eol : Z).
+
+Inductive dop :=
+| DW (b k : list N) (recs : list J)
+| DRaw (b k : list N) (c : Z) (items : list ditem)
+| DDel (b k : list N)
+| DCp (sb sk db dk : list N)
+| DEx (b k : list N)
+| DR (b k : list N)
+| DX (b p : list N)
+| DG (b p : list N).
+
+Definition dec_item (j : J) : option ditem :=
+  match j with
+  | JL [t; pre; r; post; JI eol] =>
+      if jtag_is "rec" t then
+        match jutf8 pre, jutf8 post with
+        | Some a, Some b => Some (DIRec a r b eol)
+        | _, _ => None
+        end
+      else None
+  | JL [t; x; JI eol] =>
+      match jutf8 x with
+      | Some a => if jtag_is "ws" t then Some (DIWs a eol)
+                  else if jtag_is "junk" t then Some (DIJunk a eol) else None
+      | None => None
+      end
+  | _ => None
+  end.
+
+Definition dec_op (j : J) : option dop :=
+  match j with
+  | JL [t; b; k; JL recs] =>
+      if jtag_is "w" t then
+        match jstr b, jstr k with Some b', Some k' => Some (DW b' k' recs) | _, _ => None end
+      else None
+  | JL [t; b; k; JI c; JL items] =>
+      if jtag_is "raw" t then
+        match jstr b, jstr k, omap dec_item items with
+        | Some b', Some k', Some its => Some (DRaw b' k' c its)
+        | _, _, _ => None
+        end
+      else if jtag_is "cp" t then
+        None
+      else None
+  | JL [t; b; k] =>
+      match jstr b, jstr k with
+      | Some b', Some k' =>
+          if jtag_is "del" t then Some (DDel b' k')
+          else if jtag_is "ex" t then Some (DEx b' k')
+          else if jtag_is "r" t then Some (DR b' k')
+          else if jtag_is "x" t then Some (DX b' k')
+          else if jtag_is "g" t then Some (DG b' k')
+          else None
+      | _, _ => None
+      end
+  | JL [t; sb; sk; db; dk] =>
+      if jtag_is "cp" t then
+        match jstr sb, jstr sk, jstr db, jstr dk with
+        | Some a, Some b, Some c, Some d => Some (DCp a b c d)
+        | _, _, _, _ => None
+        end
+      else None
+  | _ => None
+  end.
+
+(* strict toy deserialiser: JSON white space around `[` 1^n `]` *)
+Definition is_jws (c : N) : bool := N.eqb c 32 || N.eqb c 9 || N.eqb c 10 || N.eqb c 13.
+Fixpoint drop_jws (l : list N) : list N :=
+  match l with c :: r => if is_jws c then drop_jws r else l | [] => [] end.
+Definition trim_jws (l : list N) : list N := rev (drop_jws (rev (drop_jws l))).
+Definition toy_de2 (l : list N) : option nat :=
+  match trim_jws l with
+  | c :: r =>
+      if N.eqb c 91 then
+        match rev r with
+        | d :: m => if N.eqb d 93 && forallb (N.eqb 49) m then Some (List.length m) else None
+        | [] => None
+        end
+      else None
+  | [] => None
+  end.
+
+Definition eol_of (z : Z) : option (list N) :=
+  if z =? 0 then Some [] else if z =? 1 then Some [10%N] else if z =? 2 then Some [13%N; 10%N]
+  else None.
+
+(* model text of a raw op (record i serialised by toy_ser) and the records it carries;
+   None = the case is not well formed (eol 0 before the last item, junk that is blank or a toy
+   record) *)
+Fixpoint raw_text (items : list ditem) (next : nat) : option (list N * list J) :=
+  match items with
+  | [] => Some ([], [])
+  | it :: rest =>
+      let last_ok (eol : Z) := negb (eol =? 0) || match rest with [] => true | _ :: _ => false end in
+      match it with
+      | DIRec pre r post eol =>
+          match eol_of eol, raw_text rest (S next) with
+          | Some e, Some (t, rs) =>
+              if last_ok eol then Some (pre ++ toy_ser next ++ post ++ e ++ t, r :: rs) else None
+          | _, _ => None
+          end
+      | DIWs w eol =>
+          match eol_of eol, raw_text rest next with
+          | Some e, Some (t, rs) => if last_ok eol then Some (w ++ e ++ t, rs) else None
+          | _, _ => None
+          end
+      | DIJunk w eol =>
+          match eol_of eol, raw_text rest next with
+          | Some e, Some (t, rs) =>
+              if last_ok eol && negb (is_blank w) &&
+                 match toy_de2 w with None => true | Some _ => false end &&
+                 forallb (fun c => negb (N.eqb c 10)) w
+              then Some (w ++ e ++ t, rs) else None
+          | _, _ => None
+          end
+      end
+  end.
+
+Definition codec_of_id (z : Z) : option (option codec) :=
+  if z =? 0 then Some None else if z =? 1 then Some (Some Gzip) else if z =? 2 then Some (Some Zstd)
+  else if z =? 3 then Some (Some Bzip2) else if z =? 4 then Some (Some Xz) else None.
+
+(* ---- the reference the property instance is judged against: a plain association list
+   (bucket, key) -> records (None = content not specified by the property: raw text or a copy),
+   and the list of buckets something was ever put into ---- *)
+Definition rslot := (list N * list N)%type.
+Definition rstate := (list (rslot * option (list J)) * list (list N))%type.
+Definition slot_is (b k : list N) (s : rslot) : bool := list_eqb b (fst s) && list_eqb k (snd s).
+Definition r_lookup (rf : rstate) (b k : list N) : option (option (list J)) :=
+  match find (fun e => slot_is b k (fst e)) (fst rf) with Some e => Some (snd e) | None => None end.
+Definition r_remove (rf : rstate) (b k : list N) : rstate :=
+  (filter (fun e => negb (slot_is b k (fst e))) (fst rf), snd rf).
+Definition r_set (rf : rstate) (b k : list N) (c : option (list J)) : rstate :=
+  let rf' := r_remove rf b k in
+  (fst rf' ++ [((b, k), c)], if mem_key b (snd rf) then snd rf else b :: snd rf).
+Definition r_bucket (rf : rstate) (b : list N) : option (list (list N)) :=
+  if mem_key b (snd rf) then
+    Some (map (fun e => snd (fst e)) (filter (fun e => list_eqb b (fst (fst e))) (fst rf)))
+  else None.
+
+Definition is_ok0 (o : J) : bool := match o with JL [t] => jtag_is "ok" t | _ => false end.
+Definition is_err (o : J) (e : string) : bool :=
+  match o with JL [t; x] => jtag_is "err" t && jtag_is e x | _ => false end.
+
+Definition expected_seen (p : list N) : seen :=
+  match parse (glob_to_regex p) with None => NoCall | Some _ => Seen (literal_prefix p) end.
+
+(* one step: new model store, next record id, records so far, reference, (agree, prop) *)
+Definition ops_step (ms : mstore) (next : nat) (recs : list J) (rf : rstate) (o : dop) (out : J)
+  : option (mstore * nat * list J * rstate * (bool * bool)) :=
+  match o with
+  | DW b k rs =>
+      let n := List.length rs in
+      let ms' := ms_write toy_ser toy_enc ms b k (seq next n) in
+      let good := match out with
+                  | JL [t; JI z] => jtag_is "ok" t && (z =? Z.of_nat n)
+                  | _ => false
+                  end in
+      Some (ms', (next + n)%nat, recs ++ rs, r_set rf b k (Some rs), (good, good))
+  | DRaw b k c items =>
+      match raw_text items next, codec_of_id c with
+      | Some (text, rs), Some oc =>
+          let stored := match oc with Some cd => toy_enc cd text | None => text end in
+          let good := is_ok0 out in
+          Some (ms_put ms b k stored, (next + List.length rs)%nat, recs ++ rs,
+                r_set rf b k None, (good, good))
+      | _, _ => None
+      end
+  | DDel b k =>
+      let good := is_ok0 out in
+      Some (ms_delete ms b k, next, recs, r_remove rf b k, (good, good))
+  | DCp sb sk db dk =>
+      let p := match r_lookup rf sb sk with
+               | Some _ => is_ok0 out
+               | None => is_err out "NotFound"
+               end in
+      let rf' := match r_lookup rf sb sk with Some _ => r_set rf db dk None | None => rf end in
+      match ms_copy ms sb sk db dk with
+      | Ok ms' => Some (ms', next, recs, rf', (is_ok0 out, p))
+      | Err _ => Some (ms, next, recs, rf', (is_err out "NotFound", p))
+      end
+  | DEx b k =>
+      match out with
+      | JL [t; JB x] =>
+          if jtag_is "ok" t then
+            Some (ms, next, recs, rf,
+                  (Bool.eqb x (ms_exists ms b k),
+                   Bool.eqb x (match r_lookup rf b k with Some _ => true | None => false end)))
+          else None
+      | _ => None
+      end
+  | DR b k =>
+      let model := ms_read toy_de2 toy_dec ms b k in
+      match out with
+      | JL [t; JI sig; JL back] =>
+          if jtag_is "ok" t then
+            let a := match model, ms_get ms b k with
+                     | Ok ids, Some stored =>
+                         jl_eqb back (map (fun i => nth i recs JN) ids) &&
+                         (sig =? codec_id (magic_codec stored))
+                     | _, _ => false
+                     end in
+            let p := match r_lookup rf b k with
+                     | Some (Some rs) => jl_eqb back rs
+                     | Some None => true
+                     | None => false
+                     end in
+            Some (ms, next, recs, rf, (a, p))
+          else None
+      | JL [t; e] =>
+          if jtag_is "err" t then
+            match dec_err e with
+            | Some ek =>
+                let a := match model with Err m => errkind_eqb m ek | Ok _ => false end in
+                let p := match r_lookup rf b k with
+                         | Some (Some _) => false
+                         | Some None => true
+                         | None => errkind_eqb ek NotFound
+                         end in
+                Some (ms, next, recs, rf, (a, p))
+            | None => None
+            end
+          else None
+      | _ => None
+      end
+  | DX b p =>
+      match out with
+      | JL [j1; j2; js] =>
+          match dec_keys_outcome j1, dec_keys_outcome j2, dec_seen js with
+          | Some o1, Some o2, Some sn =>
+              let a := kout_eqb o1 (ms_expand ms b p) && kout_eqb o2 (ms_expand_required ms b p) &&
+                       seen_eqb sn (expected_seen p) in
+              let rb := r_bucket rf b in
+              let pr := prop_expand rb p o1 && prop_required o1 o2 &&
+                        prop_prefix (match rb with Some ks => ks | None => [] end) p sn in
+              Some (ms, next, recs, rf, (a, pr))
+          | _, _, _ => None
+          end
+      | _ => None
+      end
+  | DG b p =>
+      let model := ms_read_glob toy_de2 toy_dec ms b p in
+      let rb := r_bucket rf b in
+      match out with
+      | JL [t; JL back] =>
+          if jtag_is "ok" t then
+            let a := match model with
+                     | Ok ids => jl_eqb back (map (fun i => nth i recs JN) ids)
+                     | Err _ => false
+                     end in
+            let pr := match rb with
+                      | None => false
+                      | Some ks =>
+                          let ms_ := expand_ref ks p in
+                          if forallb (fun k => match r_lookup rf b k with
+                                               | Some (Some _) => true | _ => false end) ms_
+                          then jl_eqb back (flat_map (fun k => match r_lookup rf b k with
+                                                               | Some (Some rs) => rs
+                                                               | _ => []
+                                                               end) ms_)
+                          else true
+                      end in
+            Some (ms, next, recs, rf, (a, pr))
+          else None
+      | JL [t; e] =>
+          if jtag_is "err" t then
+            match dec_err e with
+            | Some ek =>
+                let a := match model with Err m => errkind_eqb m ek | Ok _ => false end in
+                let pr := match rb with
+                          | None => errkind_eqb ek NotFound
+                          | Some ks =>
+                              (* an error is allowed only when some matching object has no
+                                 specified content *)
+                              negb (forallb (fun k => match r_lookup rf b k with
+                                                      | Some (Some _) => true | _ => false end)
+                                            (expand_ref ks p))
+                          end in
+                Some (ms, next, recs, rf, (a, pr))
+            | None => None
+            end
+          else None
+      | _ => None
+      end
+  end.
+
+Fixpoint ops_run (ops : list dop) (outs : list J) (ms : mstore) (next : nat) (recs : list J)
+         (rf : rstate) (a p : bool) : verdict :=
+  match ops, outs with
+  | [], [] => ok_verdict a p
+  | o :: ops', out :: outs' =>
+      match ops_step ms next recs rf o out with
+      | Some (ms', next', recs', rf', (a1, p1)) =>
+          ops_run ops' outs' ms' next' recs' rf' (a && a1) (p && p1)
+      | None => malformed
+      end
+  | _, _ => malformed
+  end.
+
+Definition check_ops (input output : J) : verdict :=
+  match input, output with
+  | JL [JL jops], JL outs =>
+      match omap dec_op jops with
+      | Some ops => ops_run ops outs [] O [] ([], []) true true
+      | None => malformed
+      end
+  | _, _ => malformed
+  end.
+
+(* ================================================================================== *)
+(* many objects in one bucket (kind many): keys by formula, compact digests            *)
+(* ================================================================================== *)
+Fixpoint digits_fuel (fuel : nat) (n : N) (acc : list N) : list N :=
+  match fuel with
+  | O => acc
+  | S f => let acc' := (48 + N.modulo n 10)%N :: acc in
+           if (n <? 10)%N then acc' else digits_fuel f (N.div n 10) acc'
+  end.
+Definition dec_digits (n : N) : list N := digits_fuel 25 n [].
+Definition asc (s : string) : list N := map Z.to_N (string_bytes s).
+
+(* decimal digits of i, i + 1, ... kept REVERSED so that the successor is a carry chain *)
+Fixpoint incr_rd (rd : list N) : list N :=
+  match rd with
+  | [] => [49%N]
+  | d :: r => if N.eqb d 57 then 48%N :: incr_rd r else (d + 1)%N :: r
+  end.
+Definition cyc (m k : N) : N := if N.eqb (m + 1) k then 0%N else (m + 1)%N.
+
+(* key of object i (harness: many_key) from its decimal digits, i mod 7 and i mod 5 *)
+Definition many_key_of (style : Z) (ds : list N) (m7 m5 : N) : list N :=
+  if style =? 0 then asc "part-" ++ ds
+  else if style =? 1 then
+    asc "d" ++ [(48 + m7)%N] ++ asc "/part-" ++ repeat 48%N (5 - List.length ds) ++ ds ++ asc ".jsonl"
+  else if style =? 2 then ds
+  else asc "k" ++ ds ++ nth (N.to_nat m5) [[]; asc ".gz"; asc ".zst"; asc ".bz2"; asc ".xz"] [].
+
+(* objects i, i+1, ... (fuel of them): key and the records 4i .. 4i + (i mod 3) - 1 *)
+Fixpoint many_objs (fuel : nat) (style : Z) (i : N) (rd : list N) (m7 m5 m3 : N)
+  : list (list N * list N) :=
+  match fuel with
+  | O => []
+  | S f =>
+      let recs := if N.eqb m3 0 then [] else if N.eqb m3 1 then [(4 * i)%N]
+                  else [(4 * i)%N; (4 * i + 1)%N] in
+      (many_key_of style (rev rd) m7 m5, recs) ::
+      many_objs f style (N.succ i) (incr_rd rd) (cyc m7 7) (cyc m5 5) (cyc m3 3)
+  end.
+Definition many_table (style n : Z) : list (list N * list N) :=
+  many_objs (Z.to_nat n) style 0%N [48%N] 0%N 0%N 0%N.
+
+(* sum_j (j+1) * c_j  mod P  and  sum_idx (idx+1) * v_idx  mod P (the harness reduces after
+   every step, which gives the same residue) *)
+Definition digest_p : N := 1000000007.
+Definition key_hash (k : list N) : N :=
+  N.modulo (fst (fold_left (fun (a : N * N) c => ((fst a + snd a * c), (snd a + 1))%N) k (0, 1)%N))
+           digest_p.
+Definition digest (vals : list N) : N :=
+  N.modulo (fst (fold_left (fun (a : N * N) v => ((fst a + snd a * v), (snd a + 1))%N) vals (0, 1)%N))
+           digest_p.
+
+(* decimal serialisation of a record that is a natural number *)
+Definition dser (v : N) : list N := dec_digits v.
+Definition dde (l : list N) : option N :=
+  match l with
+  | [] => None
+  | _ :: _ =>
+      fold_left (fun (a : option N) c =>
+                   match a with
+                   | Some x => if (48 <=? c)%N && (c <=? 57)%N then Some (x * 10 + (c - 48))%N else None
+                   | None => None
+                   end) l (Some 0%N)
+  end.
+Definition check_many (input output : J) : verdict :=
+  match input with
+  | JL [JI mode; JI style; JI n; jp] =>
+      match jstr jp with
+      | Some p =>
+          let table := many_table style n in
+          let keys := map fst table in
+          if mode =? 0 then
+            match output with
+            | JL [jo; js] =>
+                match dec_seen js with
+                | Some sn =>
+                    match jo with
+                    | JL [t; JI cnt; JI dg] =>
+                        if jtag_is "ok" t then
+                          let ref := msort_keys (filter (glob_match p) keys) in
+                          let fits (ks : list (list N)) :=
+                            (cnt =? Z.of_nat (List.length ks)) &&
+                            (dg =? Z.of_N (digest (map key_hash ks))) in
+                          match expand_fast (Some keys) p with
+                          | Ok ks =>
+                              let f := fits ks in
+                              ok_verdict (f && seen_eqb sn (expected_seen p))
+                                         ((if keys_eqb ks ref then f else fits ref) &&
+                                          (0 <? n) && prop_prefix keys p sn)
+                          | Err _ => ok_verdict false (fits ref && (0 <? n) && prop_prefix keys p sn)
+                          end
+                        else malformed
+                    | JL [t; e] =>
+                        if jtag_is "err" t then
+                          match dec_err e with
+                          | Some ek =>
+                              (* with n = 0 nothing was put: the bucket does not exist *)
+                              let nf := (n =? 0) && errkind_eqb ek NotFound in
+                              ok_verdict nf nf
+                          | None => malformed
+                          end
+                        else malformed
+                    | _ => malformed
+                    end
+                | None => malformed
+                end
+            | _ => malformed
+            end
+          else
+            (* object i holds its records, written through write_cloud_jsonl_vec *)
+            let st := fold_left (fun st o => cloud_write dser toy_enc st (fst o) (snd o)) table [] in
+            let model := match expand_fast (bucket_of st) p with
+                         | Err e => Err e
+                         | Ok ks => read_all dde toy_dec st ks
+                         end in
+            let ref := flat_map (fun k => match find (fun e => list_eqb k (fst e)) table with
+                                          | Some e => snd e
+                                          | None => []
+                                          end)
+                                (msort_keys (filter (glob_match p) keys)) in
+            match output with
+            | JL [t; JI cnt; JI dg] =>
+                if jtag_is "ok" t then
+                  let fits (vs : list N) :=
+                    (cnt =? Z.of_nat (List.length vs)) && (dg =? Z.of_N (digest vs)) in
+                  ok_verdict (match model with Ok vs => fits vs | Err _ => false end)
+                             ((0 <? n) && fits ref)
+                else malformed
+            | JL [t; e] =>
+                if jtag_is "err" t then
+                  match dec_err e with
+                  | Some ek => let nf := (n =? 0) && errkind_eqb ek NotFound in ok_verdict nf nf
+                  | None => malformed
+                  end
+                else malformed
+            | _ => malformed
+            end
+      | None => malformed
+      end
+  | _ => malformed
+  end.
+
+(* ================================================================================== *)
+(* wide payloads (kind wide): expected summary by arithmetic                           *)
+(* ================================================================================== *)
+Definition check_wide (input output : J) : verdict :=
+  match input, output with
+  | JL [jk; JI n; JI w; JI mode],
+    JL [t; JI nw; JI nb; JI sum; JB consec; JI total; JB same; JI firsts; JI sig] =>
+      match jstr jk with
+      | Some key =>
+          if jtag_is "ok" t then
+            let r := n mod 26 in
+            let exp_firsts := if w =? 0 then 0 else 97 * n + 325 * (n / 26) + r * (r - 1) / 2 in
+            let prop := (0 <=? n) && (0 <=? w) && (nw =? n) && (nb =? n) &&
+                        (sum =? n * (n - 1) / 2) && consec && (total =? n * w) && same &&
+                        ((negb (mode =? 0)) || (firsts =? exp_firsts)) in
+            ok_verdict (prop && (sig =? codec_id (writer_codec key))) prop
+          else malformed
+      | None => malformed
+      end
+  | JL [jk; JI n; JI w; JI mode], JL [t; _] =>
+      if jtag_is "err" t then ok_verdict false false else malformed
+  | _, _ => malformed
+  end.
+
 Definition check_C19 (kind : string) (input output : J) : verdict :=
   if String.eqb kind "expand" then
     (* in = [bucket_exists, keys, pattern]; out = [expand, expand_required, prefix seen] *)
@@ -458,4 +965,7 @@ Definition check_C19 (kind : string) (input output : J) : verdict :=
         end
     | _, _ => malformed
     end
+  else if String.eqb kind "ops" then check_ops input output
+  else if String.eqb kind "many" then check_many input output
+  else if String.eqb kind "wide" then check_wide input output
   else malformed.
